@@ -147,6 +147,9 @@ class C17(CacheProp):
                 kprev, dprev = k, d
                 # C08 (ownership): a batch the policy accepted is read by the policy goroutine without any lock on the stripe,
                 # so the stripe must continue on another backing array; before that it must not move (append within capacity)
+                if "arr=handed" in r:
+                    fails.append("op %d `%s`: the stripe continues on a backing array it handed to the policy earlier: the "
+                                 "policy goroutine reads what Gets write" % (n, o))
                 if "kept" in r and "arr=same" in r:
                     fails.append("op %d `%s`: the batch was handed to the policy but the stripe keeps appending to the same "
                                  "backing array: the policy goroutine reads what Gets write" % (n, o))
